@@ -214,12 +214,12 @@ def _unit_task(task):
                                 continue
                             if not ok:
                                 part.violation("%s:%s:value given as %s:forms differ or repr does not evaluate back" % (sig0, c, vname), {"forms": [repr(f) for f in forms]})
-                    # eval(repr(scalar))
-                    for v in VALUES:
+                    # eval(repr(scalar)) - also amounts that need all 17 digits of a double, huge and tiny ones
+                    for v in VALUES + [0.1 + 0.2, 1.0 / 3.0, -2.0 / 3.0e5, 1.2345678901234567e+25, 5e-324, float("inf")]:
                         part.count("evaluations")
                         s = Scalar(v, u, c)
                         try:
-                            back = eval(repr(s), {"Scalar": Scalar})
+                            back = eval(repr(s), {"Scalar": Scalar, "inf": float("inf")})
                         except Exception as e:
                             part.violation("%s:%s:eval(repr) raised" % (sig0, c), {"repr": repr(s), "error": repr(e)})
                             continue
